@@ -1,18 +1,172 @@
 (* Dispatcher of C06: recorded histories of the server's timestamp store are
    replayed against the model (reply fields, reported times, the client's
-   stored exchanges) and the C06 property oracle. *)
+   stored exchanges) and the C06 property oracle; histories played against the
+   real IP / SCION listeners on loopback are checked with the listener-level
+   oracle and replayed on the model relationally. *)
 From Coq Require Import ZArith List String Bool.
-From ST Require Import Base.Ints Base.Value Model.Tss Model.TssOracle Extract.GlueBase Extract.GlueTss.
+From ST Require Import Base.Ints Base.Value Model.Tss Model.TssOracle Model.TssListenerOracle Extract.GlueBase Extract.GlueTss.
 Import ListNotations.
 Open Scope string_scope.
+Open Scope Z_scope.
+
+(* ---- kind lsn.hist ----
+   outs: [[cl sock qorg qrx qtx got rorg rrx rtx rref] ...] oldest first; got = 0: no reply datagram arrived *)
+Definition parse_lstep (v : value) : option (bool * lstep) :=
+  match v with
+  | VL [VZ cl; VZ sock; VZ qorg; VZ qrx; VZ qtx; VZ got; VZ rorg; VZ rrx; VZ rtx; VZ rref] =>
+      Some (got =? 1,
+            {| s_obs := {| l_cl := cl; l_q := {| q_org := qorg; q_rx := qrx; q_tx := qtx |};
+                           l_org := rorg; l_rx := rrx; l_tx := rtx |};
+               s_ref := rref; s_sock := sock |})
+  | _ => None
+  end.
+
+Fixpoint parse_lsteps (l : list value) : option (bool * list lstep) :=
+  match l with
+  | [] => Some (true, [])
+  | v :: r =>
+      match parse_lstep v, parse_lsteps r with
+      | Some (g, s), Some (ga, ss) => Some (g && ga, if g then s :: ss else ss)
+      | _, _ => None
+      end
+  end.
+
+Definition run_lsn (o : list value) : option (bool * bool) :=
+  match o with
+  | [VL stepsv] =>
+      match parse_lsteps stepsv with
+      | Some (all_got, steps) =>
+          Some (all_got && C06_lsn_agree steps, C06_lsn_ok (map s_obs steps))
+      | None => None
+      end
+  | _ => None
+  end.
+
+(* ---- operations on the store at its real capacity, each with the client's item as it was in
+   the real store before and after (kind tss.full, and the probes of tss.flood) ----
+   handle: [0 cid org rx tx rxt now pre rorg rrx rtx rref rxt' txt' post]
+   report: [1 cid rxt txt pre txt' post]
+   An operation only reads and writes the item of its own client (and, for a client without an
+   item, the admission decision, which is C07's): the model is run on the store that holds just
+   that item. *)
+Definition mini_state (cid : Z) (pre : option oitem) : tss :=
+  match pre with
+  | Some it =>
+      {| items := [{| it_key := cid; it_ents := map (fun p => {| e_rx := fst p; e_tx := snd p |}) (oi_ents it);
+                      it_qval := oi_qval it |}];
+         hq := [(cid, oi_qval it)] |}
+  | None => tss_empty
+  end.
+
+Definition post_agrees (m : option (Z * list (Z * Z))) (post : option oitem) : bool :=
+  let '(ge, gq) := items_agree m post in ge && gq.
+
+Definition full_step (v : value) : option (bool * bool) :=
+  match v with
+  | VL [VZ 0; VZ cid; VZ org; VZ rx; VZ tx; VZ rxt; VZ now; prev; VZ rorg; VZ rrx; VZ rtx; VZ rref; VZ rxt'; VZ txt'; postv] =>
+      match parse_item prev, parse_item postv with
+      | Some pre, Some post =>
+          let q := {| q_org := org; q_rx := rx; q_tx := tx |} in
+          let orc := C06_handle_ok (ents_of pre) q rxt now rorg rrx rtx rxt' txt' && pairs_ordered (ents_of post)
+                     && pairs_ordered (ents_of pre) in
+          let agree :=
+            match handle real_config (mini_state cid pre) cid q rxt now 0 with
+            | Some out =>
+                let r := o_reply out in
+                (r_org r =? rorg) && (r_rx r =? rrx) && (r_tx r =? rtx) && (r_ref r =? rref) &&
+                (o_rxt out =? rxt') && (o_txt out =? txt') &&
+                match pre, post with
+                | Some _, _ => post_agrees (model_ents (o_state out) cid) post
+                | None, None => true                                   (* served without state *)
+                | None, Some _ => post_agrees (model_ents (o_state out) cid) post
+                end
+            | None => false
+            end in
+          Some (agree, orc)
+      | _, _ => None
+      end
+  | VL [VZ 1; VZ cid; VZ rxt; VZ txt; prev; VZ txt'; postv] =>
+      match parse_item prev, parse_item postv with
+      | Some pre, Some post =>
+          let orc := C06_update_ok (ents_of pre) (ents_of post) rxt txt' && pairs_ordered (ents_of post) && (rxt <? txt') in
+          let out := update_tx (mini_state cid pre) cid rxt txt in
+          let agree := (t_txt out =? txt') && post_agrees (model_ents (t_state out) cid) post in
+          Some (agree, orc)
+      | _, _ => None
+      end
+  | _ => None
+  end.
+
+Fixpoint full_steps (l : list value) : option (bool * bool) :=
+  match l with
+  | [] => Some (true, true)
+  | v :: r =>
+      match full_step v, full_steps r with
+      | Some (g, o), Some (ga, oa) => Some (g && ga, o && oa)
+      | _, _ => None
+      end
+  end.
+
+(* ---- tss.flood for C06: last element of outs = [exst replies probes]
+   exst: newcomers that got state hold exactly the exchange of the one reply they received;
+   replies: [cid org rx tx rxt now rorg rrx rtx rref rxt' txt'] the reply to every newcomer (never
+   seen before: nothing is on record for it, whatever origin it names);
+   probes: operations as in tss.full *)
+Definition flood_reply_ok (v : value) : option (bool * bool) :=
+  match v with
+  | VL [VZ cid; VZ org; VZ rx; VZ tx; VZ rxt; VZ now; VZ rorg; VZ rrx; VZ rtx; VZ rref; VZ rxt'; VZ txt'] =>
+      let q := {| q_org := org; q_rx := rx; q_tx := tx |} in
+      let orc := C06_handle_ok [] q rxt now rorg rrx rtx rxt' txt' in
+      let agree := match handle real_config tss_empty cid q rxt now 0 with
+                   | Some out => let r := o_reply out in
+                                 (r_org r =? rorg) && (r_rx r =? rrx) && (r_tx r =? rtx) && (r_ref r =? rref) &&
+                                 (o_rxt out =? rxt') && (o_txt out =? txt')
+                   | None => false
+                   end in
+      Some (agree, orc)
+  | _ => None
+  end.
+
+Fixpoint flood_replies (l : list value) : option (bool * bool) :=
+  match l with
+  | [] => Some (true, true)
+  | v :: r =>
+      match flood_reply_ok v, flood_replies r with
+      | Some (g, o), Some (ga, oa) => Some (g && ga, o && oa)
+      | _, _ => None
+      end
+  end.
+
+Definition run_flood_c06x (o : list value) : option (bool * bool) :=
+  match o with
+  | [a1; a2; a3; a4; a5; a6; a7; a8; a9; a10; VL [VL exst; VL reps; VL probes; VL _]] =>
+      match run_flood_c06 [a1; a2; a3; a4; a5; a6; a7; a8; a9; a10; VL exst], flood_replies reps, full_steps probes with
+      | Some b, Some (g1, o1), Some (g2, o2) => Some (b && g1 && g2, b && o1 && o2)
+      | _, _, _ => None
+      end
+  | _ => None
+  end.
 
 Definition glue_C06 (k : string) (a o : list value) : option verdict :=
   if is k "tss.hist" then
     let ac := run_hist a o in
     Some (relational (a_agree06 ac && negb (a_bad ac)) (a_oracle06 ac))
   else if is k "tss.flood" then
-    match run_flood_c06 o with
-    | Some b => Some (relational b b)
+    match run_flood_c06x o with
+    | Some (g, orc) => Some (relational g orc)
+    | None => Some (relational false true)
+    end
+  else if is k "tss.full" then
+    match o with
+    | [VL recs] => match full_steps recs with
+                   | Some (g, orc) => Some (relational g orc)
+                   | None => Some (relational false true)
+                   end
+    | _ => Some (relational false true)
+    end
+  else if is k "lsn.hist" then
+    match run_lsn o with
+    | Some (g, orc) => Some (relational g orc)
     | None => Some (relational false true)
     end
   else if is k "tss.lockdiscipline" then Some (relational true true)   (* C07's case kind *)
